@@ -218,6 +218,19 @@ func (c *memConn) peer() {
 			pc.ID = v.ID
 			c.inject(pc)
 		case *packet.Subscribe, *packet.Unsubscribe, *packet.Publish:
+			if pb, ok := pkt.(*packet.Publish); ok && pb.Dup {
+				// a publish re-sent from the session: acknowledged, not counted as a request of the script
+				if pb.Message.QOS == 1 {
+					pa := packet.NewPuback()
+					pa.ID = pb.ID
+					c.inject(pa)
+				} else if pb.Message.QOS == 2 {
+					pr := packet.NewPubrec()
+					pr.ID = pb.ID
+					c.inject(pr)
+				}
+				continue
+			}
 			n++
 			if p.dropAfter == n {
 				c.drop()
